@@ -469,6 +469,24 @@ ME = "distance3d/mesh.py"
 RB = "distance3d/hydroelastic_contact/_rigid_body.py"
 MP = "distance3d/mpr.py"
 _SEEDLIKE = [
+    M(["C10"], "box-clip-full-size", "distance3d/distance/_box.py", "point_to_box", "half_size = 0.5 * size", "half_size = size", ["R-CLIPSYM", "point_to_box"]),
+    M(["C10"], "rect-clip-one-sided", "distance3d/distance/_rectangle.py", "point_to_rectangle", "np.clip(rectangle_coordinates, -rectangle_half_lengths, rectangle_half_lengths)", "np.clip(rectangle_coordinates, 0.0, rectangle_half_lengths)", ["R-CLIPSYM", "point_to_rectangle"]),
+    M(["C10"], "linebox-case000-clip-asym", "distance3d/distance/_line_to_box.py", "_case_000", "np.clip(point_in_box, -box_half_size, box_half_size)", "np.clip(point_in_box, -box_half_size, 2.0 * box_half_size)", ["R-CLIPSYM", "_case_000"]),
+    M(["C10"], "segment-param-no-upper-clamp", "distance3d/distance/_line.py", "point_to_line_segment", "t = min(max(t, 0.0), 1.0)", "t = max(t, 0.0)", ["R-ONSEGMENT", "point_to_line_segment"]),
+    M(["C10"], "segment-param-clamp-dropped", "distance3d/distance/_line.py", "_line_segment_to_line_segment", "s = min(max(-c / a, 0.0), 1.0)", "s = -c / a", ["R-ONSEGMENT", "_line_segment_to_line_segment"], nth=1),
+    M(["C10"], "segment-param-upper-test-weak", "distance3d/distance/_line.py", "_line_segment_to_line_segment", "t > 1.0", "t > 2.0", ["R-ONSEGMENT", "_line_segment_to_line_segment"]),
+    M(["C10"], "segment-param-lower-test-dropped", "distance3d/distance/_line.py", "_line_segment_to_line_segment", "if t < 0.0:\n    t = 0.0\n    s = min(max(-c / a, 0.0), 1.0)\nelif t > 1.0:\n    t = 1.0\n    s = min(max((b - c) / a, 0.0), 1.0)",
+      "if t > 1.0:\n    t = 1.0\n    s = min(max((b - c) / a, 0.0), 1.0)", ["R-ONSEGMENT", "_line_segment_to_line_segment"]),
+    M(["C10"], "segment-plane-range-one-sided", "distance3d/distance/_plane.py", "_line_segment_to_plane", "0 <= t <= segment_length", "0 <= t", ["R-ONSEGMENT", "_line_segment_to_plane"]),
+    M(["C10"], "line-segment-param-degenerate-unclamped", "distance3d/distance/_line.py", "_line_to_line_segment", "s = min(max(-c / a, 0.0), 1.0)", "s = max(-c / a, 0.0)", ["R-ONSEGMENT", "_line_to_line_segment"]),
+    M(["C02"], "libccd-triangle-ac-wrong-row", "distance3d/gjk/_gjk_libccd.py", "_triangle", "_set_point(v, v1, v2, 1, *A)", "_set_point(v, v1, v2, 0, *A)", ["R-DOSIMPLEX", "_triangle"]),
+    M(["C02"], "libccd-triangle-ab-direction", "distance3d/gjk/_gjk_libccd.py", "_triangle_ab", "_triple_cross(AB, AO, AB)", "_triple_cross(AB, AO, AO)", ["R-DOSIMPLEX"]),
+    M(["C02"], "libccd-triangle-ab-keeps-wrong-vertex", "distance3d/gjk/_gjk_libccd.py", "_triangle_ab", "_set_point(v, v1, v2, 0, *B)", "_set_point(v, v1, v2, 0, *A)", ["R-DOSIMPLEX"], nth=0),
+    M(["C02"], "libccd-triangle-below-no-swap", "distance3d/gjk/_gjk_libccd.py", "_triangle", "_set_point(v, v1, v2, 1, *C)", "_set_point(v, v1, v2, 1, *B)", ["R-DOSIMPLEX", "_triangle"]),
+    M(["C02"], "libccd-line-a-region-count", "distance3d/gjk/_gjk_libccd.py", "_line_segment", "n_points = 1", "n_points = 2", ["R-DOSIMPLEX", "_line_segment"]),
+    M(["C02"], "libccd-tetra-wrong-face", "distance3d/gjk/_gjk_libccd.py", "_rearrange_simplex_to_triangle", "_set_point(v, v1, v2, 1, *D)", "_set_point(v, v1, v2, 1, *C)", ["R-DOSIMPLEX", "face kept"]),
+    M(["C02"], "libccd-tetra-side-test-plane", "distance3d/gjk/_gjk_libccd.py", "_tetrahedron", "np.sign(np.dot(ADB, AO)) == C_on_ADB", "np.sign(np.dot(ABC, AO)) == C_on_ADB", ["R-DOSIMPLEX"]),
+    M(["C02"], "libccd-tetra-rows", "distance3d/gjk/_gjk_libccd.py", "_tetrahedron", "np.copy(v[2])", "np.copy(v[1])", ["R-DOSIMPLEX", "vertex rows"]),
     M(["C04"], "aabb-cylinder-radicand-unclamped", "distance3d/containment.py", "cylinder_aabb", "np.maximum(0.0, 1.0 - axis * axis)", "1.0 - axis * axis", ["R-SQRTDOMAIN", "cylinder_aabb"]),
     M(["C04"], "aabb-cone-radicand-unclamped", "distance3d/containment.py", "cone_aabb", "np.maximum(0.0, 1.0 - a * a / (height * height))", "1.0 - a * a / (height * height)", ["R-SQRTDOMAIN", "cone_aabb"]),
     M(["C20", "C10"], "line-line-sqrt-no-abs", "distance3d/distance/_line.py", "_line_to_line", "math.sqrt(abs(dist_squared))", "math.sqrt(dist_squared)", ["R-SQRTDOMAIN", "_line_to_line"]),
